@@ -2,7 +2,7 @@
 use quote::ToTokens;
 
 /// Token string with light cosmetic clean-up (still exactly the same token sequence).
-pub fn toks<T: ToTokens>(t: &T) -> String {
+pub fn toks<T: ToTokens + ?Sized>(t: &T) -> String {
     clean(&t.to_token_stream().to_string())
 }
 
